@@ -88,11 +88,49 @@ def project(obj) -> Dict[str, Any]:
 HOST = {"InitNewApp", "OpenEPRSocket", "Subroutine", "StopApp", "Signal"}
 
 
-def roundtrip(m: Dict[str, Any]) -> Dict[str, Any]:
+MODES = ("plain", "buffer-reused", "modified-after-a-first-serialisation")
+FIXED = {"InitNewApp": ("app_id", "max_qubits"), "OpenEPRSocket": ("app_id", "epr_socket_id", "remote_node_id", "remote_epr_socket_id", "min_fidelity"),
+         "StopApp": ("app_id",), "Done": ("msg_id",), "Error": ("err_code",), "ReturnReg": ("value",)}
+
+
+def _other(m):
+    """a different message of the same (fixed-size) type: every integer field changed"""
+    o = json.loads(json.dumps(m))
+    for f in FIXED[m["t"]]:
+        o[f] = [o[f][0] ^ 1, o[f][1] ^ 0x55] if isinstance(o[f], list) else ((o[f] + 1) % 3 if f == "err_code" else (o[f] ^ 3) % 256 if f in ("max_qubits", "min_fidelity") else o[f] ^ 5)
+    if m["t"] == "ReturnReg":
+        o["register"] = (m["register"] + 21) % 64
+    return o
+
+
+def roundtrip(m: Dict[str, Any], mode: str = "plain") -> Dict[str, Any]:
+    """deserialize(bytes(message)) in three situations a controller / host goes through:
+    plain; the receive buffer is a writable one that is used again for the next frame before the message is read;
+    the message object was serialised once before its fields were given their final values"""
+    des = M.deserialize_host_msg if m["t"] in HOST else M.deserialize_return_msg
+    if mode == "modified-after-a-first-serialisation" and m["t"] in FIXED:
+        first = _other(m)
+        if m["t"] == "ReturnReg":
+            first["value"] = m["value"]        # only the embedded register differs: it is changed through the nested structure
+        obj = build(first)
+        _ = (bytes(obj), len(obj) if hasattr(obj, "__len__") else 0)
+        for f in FIXED[m["t"]]:
+            if first[f] != m[f]:
+                setattr(obj, f, u32(m[f]) if isinstance(m[f], list) else m[f])
+        if m["t"] == "ReturnReg":
+            want = isa.reg(m["register"]).cstruct
+            obj.register.register_name = want.register_name
+            obj.register.register_index = want.register_index
+        return project(des(bytes(obj)))
     obj = build(m)
     raw = bytes(obj)
-    back = M.deserialize_host_msg(raw) if m["t"] in HOST else M.deserialize_return_msg(raw)
-    return project(back)
+    if mode == "buffer-reused" and m["t"] != "Subroutine":      # (the subroutine message takes bytes only)
+        buf = bytearray(raw)
+        back = des(buf)
+        nxt = bytes(build(_other(m))) if m["t"] in FIXED else bytes(len(raw))
+        buf[:] = (nxt + bytes(len(raw)))[:len(raw)]       # the next frame arrives in the same buffer
+        return project(back)
+    return project(des(raw))
 
 
 def diff_field(a, b):
@@ -135,14 +173,16 @@ def run(prop: str, tier: str) -> int:
         nontriv = set()
         for row in univ:
             m = row["m"]
-            try:
-                got = roundtrip(m)
-            except Exception as ex:
-                V.add("raises", {"t": m["t"]}, f"{type(ex).__name__}: {ex} on {m}", m)
-                continue
-            nontriv.add(json.dumps(m, sort_keys=True))
-            if got != m:
-                V.add("delivered-differs", witness(m, got), f"sent {m} got {got}", m)
+            for mode in MODES:
+                try:
+                    got = roundtrip(m, mode)
+                except Exception as ex:
+                    V.add("raises", dict({"t": m["t"]}, **({"mode": mode} if mode != "plain" else {})), f"{type(ex).__name__}: {ex} on {m} ({mode})", m)
+                    break
+                nontriv.add(json.dumps(m, sort_keys=True))
+                if got != m:
+                    V.add("delivered-differs", dict(witness(m, got), **({"mode": mode} if mode != "plain" else {})), f"sent {m} got {got} ({mode})", m)
+                    break
         # code -> spec: random messages
         rng = random.Random(C.seed() * 104729 + 5)
         n = 600 if tier == "quick" else 8000
@@ -196,9 +236,9 @@ def run(prop: str, tier: str) -> int:
                 ln = rng.choice([0, 1, 2, 5, 10, 33, 64])
                 m = {"t": t, "address": i32(),
                      "values": [[0, 0] if rng.random() < 0.3 else [1, i32()] for _ in range(ln)]}
-            row = {"id": i + 1, "sent": m, "err": ""}
+            row = {"id": i + 1, "sent": m, "err": "", "mode": MODES[i % 3] if i < n else "plain"}
             try:
-                row["got"] = roundtrip(m)
+                row["got"] = roundtrip(m, row["mode"])
             except Exception as ex:
                 row["got"] = {"t": "none"}
                 row["err"] = f"{type(ex).__name__}: {ex}"[:200]
@@ -212,10 +252,11 @@ def run(prop: str, tier: str) -> int:
         byid = {row["id"]: row for row in rows}
         for v in r2.verdicts:
             row = byid[v[2]]
+            extra = {"mode": row["mode"]} if row.get("mode", "plain") != "plain" else {}
             if v[1] == "raised":
-                V.add("raises", {"t": row["sent"]["t"]}, row["err"], row)
+                V.add("raises", dict({"t": row["sent"]["t"]}, **extra), row["err"], row)
             else:
-                V.add("delivered-differs", witness(row["sent"], row["got"]), f"sent {row['sent']} got {row['got']}", row)
+                V.add("delivered-differs", dict(witness(row["sent"], row["got"]), **extra), f"sent {row['sent']} got {row['got']} ({row.get('mode')})", row)
         # binding self-test: a corrupted record must be rejected
         bad = json.loads(json.dumps(next(x for x in rows if x["sent"]["t"] == "ReturnReg" and not x["err"])))
         bad["id"] = 1
@@ -231,7 +272,7 @@ def run(prop: str, tier: str) -> int:
             "evaluations": len(univ) + len(rows), "distinct_nontrivial": len(nontriv),
             "rule": "message = type x field values; TLC universe is field-wise boundary values and all undefined-patterns of short arrays; random messages add wide values and arrays to length 64; every message is non-trivial (has a payload to lose), distinct by value",
             "samples": [univ[0], univ[len(univ) // 2], rows[0], rows[1]],
-            "universe": len(univ), "random_messages": len(rows),
+            "universe": len(univ), "random_messages": len(rows), "situations": list(MODES),
             "tlc_action_coverage": {**r.coverage, **{"Trace" + k: v for k, v in r2.coverage.items()}},
             "selftest": "corrupted ReturnReg value rejected by MsgTrace",
             "exhaustive": False, "checker_cmd": r.cmd,
